@@ -51,6 +51,8 @@ class ChipsMonitor:
             ctx.counters['multi_pot_updates'] += 1
         if raked:
             ctx.counters['raked_updates'] += 1
+            if not ctx.cfg.get('rake'):
+                self._viol(st, op, ctx, 'rake-without-rake', f'{raked} raked although no rake is configured')
         if not st.status:
             ctx.counters['final_states_checked'] += 1
             if st.board_count >= 3:
